@@ -98,7 +98,8 @@ pub fn gen_dag(r: &mut Rng, cfg: &DagCfg) -> Dag {
             }
             if cfg.no_hash && b == BinaryOpcode::Mix { b = BinaryOpcode::Add; }
             let l = pick(r, &pool, &mut ctx);
-            let rr = pick(r, &pool, &mut ctx);
+            // now and then the same node on both sides (a - a, a / a, atan2(a, a), compare(a, a), mod(a, a) are not folded away)
+            let rr = if r.chance(0.06) { l } else { pick(r, &pool, &mut ctx) };
             apply_bin(&mut ctx, b, l, rr)
         };
         // constants produced by folding stay out of the pool unless asked for
